@@ -120,3 +120,16 @@ def jsonable(x, depth=0):
 def case_hash(case):
     return hashlib.sha1(json.dumps(case, sort_keys=True, default=repr)
                         .encode()).hexdigest()[:12]
+
+
+def spelled_path(d, name, vseed):
+    """(path handed to Darr, physical path used by the observers).  One history in five addresses its array
+    through a spelling that only the operating system resolves correctly: <symlink>/../<name>."""
+    import os
+    import zlib
+    if zlib.crc32(str(vseed).encode()) % 5:
+        return d / name, d / name
+    (d / 'store' / 'projA').mkdir(parents=True)
+    (d / 'work').mkdir()
+    os.symlink(d / 'store' / 'projA', d / 'work' / 'current')
+    return d / 'work' / 'current' / '..' / name, d / 'store' / name
